@@ -141,6 +141,10 @@ class walk_tree(object):
                             # Is the matched segment the beginning of a loop?
                             if node.is_loop() \
                                     and self._is_loop_match(node, seg_data, errh, seg_count, cur_line, ls_id):
+                                # The loop repeats right after its first segment: the rest of
+                                # the instance being left was never walked
+                                if orig_node == child:
+                                    self._note_missing_children(node, child, seg_count, cur_line, ls_id)
                                 (
                                     node1, push_node_list) = self._goto_seg_match(node, seg_data,
                                                                                   errh, seg_count, cur_line, ls_id)
@@ -247,6 +251,29 @@ class walk_tree(object):
         err_str = 'Segment %s not found.  Started at %s' % (seg_str, orig_node.get_path())
         errh.add_seg(orig_node, seg_data, seg_count, cur_line, ls_id)
         errh.seg_error('1', err_str, None)
+
+    def _note_missing_children(self, loop_node, first_seg_node, seg_count, cur_line, ls_id):
+        """
+        Record the required segments and loops of a loop instance that ends at its first segment
+
+        @param loop_node: The loop being repeated
+        @type loop_node: L{node<map_if.loop_if>}
+        @param first_seg_node: The matched first segment node of the loop
+        @type first_seg_node: L{node<map_if.segment_if>}
+        """
+        for ord1 in [a for a in sorted(loop_node.pos_map) if a > first_seg_node.pos]:
+            for child in loop_node.pos_map[ord1]:
+                if child.usage != 'R' or self.counter.get_count(child.x12path) >= 1:
+                    continue
+                if child.is_segment():
+                    fake_seg = pyx12.segment.Segment('%s' % (child.id), '~', '*', ':')
+                    err_str = 'Mandatory segment "%s" (%s) missing' % (child.name, child.id)
+                    self.mandatory_segs_missing.append((child, fake_seg, '3', err_str, seg_count, cur_line, ls_id))
+                elif child.is_loop() and child.get_first_seg() is not None:
+                    first_child_node = child.get_first_seg()
+                    fake_seg = pyx12.segment.Segment('%s' % (first_child_node.id), '~', '*', ':')
+                    err_str = 'Mandatory loop "%s" (%s) missing' % (child.name, child.id)
+                    self.mandatory_segs_missing.append((first_child_node, fake_seg, '3', err_str, seg_count, cur_line, ls_id))
 
     def _flush_mandatory_segs(self, errh, cur_pos=None):
         """
